@@ -42,6 +42,36 @@ var (
 		"cut n0 a=1", // the two candidates cannot hear each other
 		"drop 1>2:RV#0", "drop 1>2:RV#1", "drop 1>2:AE#0", "drop 1>2:AE#1", "drop 0>2:RV#1", // stale requests
 	)
+	// S-stale (5 voters, K19): n0 led term 1 and has an unanswered AppendEntries
+	// (entries 3..5) that n1 accepted; n2 led term 2 and overwrote index 3 on
+	// n0 and n1; n0 now leads term 3 (log 1,2,3',4) and the term-1 reply is
+	// still deliverable.
+	seedStale5 = sim.MustParse(
+		"timeout n0", "rt 0>1:RV#0 a=2", "rt 0>2:RV#0 a=2", "rt 0>1:RV#1", "rt 0>2:RV#1",
+		"rt 0>1:AE#0", "rt 0>2:AE#0", "rt 0>3:AE#0", "rt 0>4:AE#0",
+		"rt 0>1:AE#1", "rt 0>2:AE#1", "rt 0>3:AE#1", "rt 0>4:AE#1",
+		"write n0", "write n0", "write n0", "deliver 0>1:AE#4", "isolate n0",
+		"timeout n2", "rt 2>3:RV#0 a=2", "rt 2>4:RV#0 a=2", "rt 2>3:RV#1", "rt 2>4:RV#1",
+		"rt 2>1:AE#0", "heal", "rt 2>0:AE#0",
+		"timeout n0", "rt 0>1:RV#2 a=2", "rt 0>3:RV#2 a=2", "rt 0>1:RV#3", "rt 0>3:RV#3",
+		// stale requests nobody needs any more
+		"drop 0>3:RV#0", "drop 0>4:RV#0", "drop 0>3:RV#1", "drop 0>4:RV#1",
+		"drop 0>1:AE#2", "drop 0>2:AE#2", "drop 0>3:AE#2", "drop 0>4:AE#2",
+		"drop 0>1:AE#3", "drop 0>2:AE#3", "drop 0>3:AE#3", "drop 0>4:AE#3",
+		"drop 0>2:AE#4", "drop 0>3:AE#4", "drop 0>4:AE#4",
+		"drop 2>0:RV#0", "drop 2>1:RV#0", "drop 2>0:RV#1", "drop 2>1:RV#1",
+		"drop 2>3:AE#0", "drop 2>4:AE#0", "drop 2>0:AE#1", "drop 2>1:AE#1", "drop 2>3:AE#1", "drop 2>4:AE#1",
+		"drop 0>2:RV#2", "drop 0>4:RV#2", "drop 0>2:RV#3", "drop 0>4:RV#3",
+	)
+	// S-deposed (3 voters, K1): n0 led term 1 and still believes it does; one of
+	// its heartbeats was handled by n1 but the reply is withheld; n2 leads
+	// term 2 with n1; n0 is cut off.
+	seedDeposed3 = sim.MustParse(
+		"timeout n0", "rt 0>1:RV#0 a=2", "rt 0>2:RV#0 a=2", "rt 0>1:RV#1", "rt 0>2:RV#1",
+		"rt 0>1:AE#0", "rt 0>2:AE#0", "rt 0>1:AE#1", "rt 0>2:AE#1",
+		"beat n0", "deliver 0>1:AE#2", "isolate n0", "timeout n2", "rt 2>1:RV#0 a=2", "rt 2>1:RV#1", "rt 2>1:AE#0",
+		"drop 2>1:AE#1",
+	)
 	// S-leader (3 voters): n0 leads term 1, its no-op is committed everywhere.
 	seedLeader3 = sim.MustParse(
 		"timeout n0", "rt 0>1:RV#0 a=2", "rt 0>2:RV#0 a=2", "rt 0>1:RV#1", "rt 0>2:RV#1",
@@ -50,6 +80,8 @@ var (
 )
 
 func init() {
+	reg(&explore.Suite{Name: "freelead3", Cfg: sim.Config{Voters: 3}, Seed: seedLeader3,
+		Budget: sim.Budget{Timeouts: 9, Elapses: 9, Beats: 9, Writes: 9, Reads: 9, Reorders: -1, Splits: 9, Cuts: 9, Deviations: -1}})
 	reg(&explore.Suite{Name: "free3", Cfg: sim.Config{Voters: 3},
 		Budget: sim.Budget{Timeouts: 9, Elapses: 9, Beats: 9, Writes: 9, Reorders: -1, Splits: 9, Deviations: -1}})
 	reg(&explore.Suite{Name: "free3h", Cfg: sim.Config{Voters: 3, StoreHook: true},
@@ -79,6 +111,18 @@ func init() {
 			Budget: sim.Budget{Timeouts: 2, Elapses: 2, Beats: 1, Reorders: -1, Splits: 1, Deviations: d}})
 		reg(&explore.Suite{Name: fmt.Sprintf("lead3-d%d", d), Cfg: sim.Config{Voters: 3, StoreHook: true}, Seed: seedLeader3,
 			Budget: sim.Budget{Timeouts: 2, Elapses: 2, Beats: 1, Writes: 2, Reorders: -1, Splits: 2, Crashes: 2, Arms: 1, Restarts: 2, Deviations: d}})
+	}
+	for d := 0; d <= 4; d++ {
+		reg(&explore.Suite{Name: fmt.Sprintf("stale5-d%d", d), Cfg: sim.Config{Voters: 5}, Seed: seedStale5,
+			Budget: sim.Budget{Timeouts: 1, Elapses: 1, Beats: 2, Writes: 1, Reorders: -1, Splits: 1, Deviations: d}})
+	}
+	for d := 0; d <= 5; d++ {
+		reg(&explore.Suite{Name: fmt.Sprintf("deposed3-d%d", d), Cfg: sim.Config{Voters: 3}, Seed: seedDeposed3,
+			Budget: sim.Budget{Timeouts: 1, Elapses: 1, Beats: 1, Writes: 1, Reads: 2, Reorders: -1, Splits: 1, Cuts: 1, Deviations: d}})
+		reg(&explore.Suite{Name: fmt.Sprintf("read3-d%d", d), Cfg: sim.Config{Voters: 3}, Seed: seedLeader3,
+			Budget: sim.Budget{Timeouts: 1, Elapses: 1, Beats: 2, Writes: 1, Reads: 2, Reorders: -1, Splits: 2, Cuts: 1, Deviations: d}})
+		reg(&explore.Suite{Name: fmt.Sprintf("cli3-d%d", d), Cfg: sim.Config{Voters: 3}, Seed: seedLeader3,
+			Budget: sim.Budget{Timeouts: 1, Elapses: 1, Beats: 1, Writes: 3, Reorders: -1, Splits: 2, Cuts: 1, ClientTimeouts: 1, Crashes: 1, Restarts: 1, Deviations: d}})
 	}
 	// small unbounded spaces (no deviation bound): every order within the budgets
 	reg(&explore.Suite{Name: "all2", Cfg: sim.Config{Voters: 2},
